@@ -1,6 +1,7 @@
 """C07 - impulse and frequency responses agree within the advertised supports (thin: structural clauses only)."""
 
 import ast
+from fractions import Fraction
 
 from .. import astq
 from .. import sym as S
@@ -33,6 +34,7 @@ def run(ctx):
     ctx.rule(purity)
     ctx.rule(fc.gabor_supports, "R-C07-gabor-support", ("freq", "time"))
     ctx.rule(_gabor_pair)
+    ctx.rule(gammatone_frame)
 
 
 def realness(ctx, R="R-C07-realness"):
@@ -147,3 +149,96 @@ def _gabor_pair(ctx, R="R-C07-gabor-pair"):
     C sigma sqrt(2 pi) exp(-sigma^2 (w - xi)^2 / 2) with the same C (unit gain or unit L2 norm)"""
     from .c05 import gabor_norm
     gabor_norm(ctx, R)
+
+
+def gammatone_frame(ctx, R="R-C07-support-frame"):
+    """The gammatone impulse response is the envelope E shifted by the filter's offset, h(t) = E(t - offset).  The end of
+    the temporal support is found by a search on a variable x; whichever time frame x lives in (decided by what the
+    search condition evaluates: h(x) -> shifted time, h(x + offset) or an offset-free envelope -> unshifted time), the
+    advertised end must be the threshold crossing in *shifted* time: x itself in the first case, x + offset in the
+    second.  Adding the offset to a root already found in shifted time ends the support |offset| samples early."""
+    prog = ctx.prog
+    c = fc.bank(prog, "ComplexGammatoneFilterBank")
+    h = prog.own_method(c, "_h")
+    t = S.sym(h.params[1])
+    evh = SymEval(prog, h, inline_props=False).run()
+    ctx.need(evh.returns, R, "_h has no return")
+    main = [v for g, v, n in evh.returns if "t" in S.symbols(v) or h.params[1] in S.symbols(v)]
+    ctx.need(len(main) == 1, R, "_h does not have exactly one non-trivial return")
+    off = [x for x in S.walk(main[0]) if cc.is_call(x, "getitem") and x.args[1].op == "sym" and x.args[1].args[0].endswith("._offsets")]
+    ctx.need(off, R, "_h does not read the filter's offset")
+    OFF, U = S.sym("OFFSET"), S.sym("U")
+    hv = S.subst(main[0], {off[0]: OFF})
+    shifted = S.subst(hv, {h.params[1]: S.add(U, OFF)})
+    r = S.compare(shifted, S.subst(hv, {h.params[1]: U, "OFFSET": S.ZERO}), domain={"U": [Fraction(3), Fraction(7, 2)], "OFFSET": [Fraction(-3), Fraction(-5, 2)]}, expand_logs=True)
+    ctx.check(r["verdict"] == "equal", R, h, h.node, "h(t) = E(t - offset): the impulse response is the envelope shifted by the filter's offset",
+              "_h is not a pure shift of the envelope by the offset")
+    f = prog.own_method(c, "_calculate_temp_support")
+    loops = [n for n in f.body_nodes() if isinstance(n, ast.While)]
+    ctx.need(len(loops) == 1, R, "threshold search loop not found in _calculate_temp_support")
+    w = loops[0]
+    tested = [x.id for x in ast.walk(w.test) if isinstance(x, ast.Name)]
+    # the value tested is (re)computed in the loop from a call that evaluates the response at the search variable
+    defs = [n for n in ast.walk(w) if isinstance(n, ast.Assign) and isinstance(n.targets[0], ast.Name) and n.targets[0].id in tested]
+    ctx.need(defs, R, "the tested value is not recomputed in the search loop")
+    calls = [x for x in ast.walk(defs[-1].value) if isinstance(x, ast.Call) and isinstance(x.func, ast.Attribute) and astq.is_name(x.func.value, f.params[0])]
+    ctx.need(len(calls) == 1 and calls[0].args, R, "the search condition does not evaluate a method of the bank: %s" % astq.text(defs[-1].value))
+    call = calls[0]
+    arg = call.args[0]
+    roots = [x.id for x in ast.walk(arg) if isinstance(x, ast.Name) and x.id not in ("offset",)]
+    ctx.need(len(set(roots)) == 1, R, "cannot identify the search variable in %s" % astq.text(call))
+    root = roots[0]
+    ev = SymEval(prog, f, inline_props=False)
+    ev.env = {root: S.sym("X"), "offset": OFF}
+    a = ev.expr(arg)
+    callee = prog.find_method(c, call.func.attr)
+    ctx.need(callee is not None, R, "%s is not a method of the bank" % call.func.attr)
+    if callee is h:
+        # h evaluated at a = X + k*OFFSET: the envelope sees a - OFFSET
+        seen = S.sub(a, OFF)
+    else:
+        evc = SymEval(prog, callee, inline_props=False).run()
+        uses_off = any("_offsets" in s_ for g, v, n in evc.returns for s_ in S.symbols(v))
+        ctx.need(not uses_off, R, "cannot determine the time frame of %s" % callee.short)
+        seen = a
+    # seen = X + k*OFFSET with k in {0, -1}: the envelope argument in terms of the search variable
+    k_frame = None
+    for k in (0, -1, 1):
+        if S.compare(seen, S.add(S.sym("X"), S.mul(S.lift(k), OFF)), domain={})["verdict"] == "equal":
+            k_frame = k
+    ctx.need(k_frame is not None, R, "the search evaluates the envelope at %s, not at x + k*offset" % S.show(seen))
+    # unshifted crossing u* = X + k*OFFSET; shifted crossing = u* + OFFSET = X + (k+1)*OFFSET
+    rets = astq.returns_of(f)
+    ctx.need(len(rets) == 1 and isinstance(rets[0].value, ast.Tuple) and len(rets[0].value.elts) == 2, R, "_calculate_temp_support does not return a pair")
+    hi = ev.expr(rets[0].value.elts[1])
+
+    def strip(e):
+        while e.op == "call" and e.args[0] in ("int", "ceil", "floor", "round") and len(e.args) == 2:
+            e = e.args[1]
+        if e.op == "add":
+            return S.add(strip(e.args[0]), strip(e.args[1]))
+        return e
+    core = strip(hi)
+    want = S.add(S.sym("X"), S.mul(S.lift(k_frame + 1), OFF))
+    r = S.compare(core, want, domain={"X": [Fraction(40)], "OFFSET": [Fraction(-3), Fraction(-7, 2)]})
+    frame = "shifted time (h already includes the offset)" if k_frame == -1 else "unshifted time"
+    if r["verdict"] == "equal":
+        ctx.ok(R, f.loc(rets[0]), "the search variable lives in %s and the advertised end is the crossing in shifted time" % frame)
+    elif r["verdict"] == "differ":
+        ctx.bad(R, f, rets[0], "the search stops where the response evaluated at `%s` falls to the threshold, so `%s` is in %s; the advertised end %s is "
+                "then x %+d*offset instead of x %+d*offset: with max_centered (offset = -(order-1)/alpha) the support ends (order-1)/alpha samples "
+                "before the impulse response has fallen to the threshold, and magnitudes outside `supports` exceed it"
+                % (astq.text(arg), root, frame, astq.text(rets[0].value.elts[1]), _coef(core), k_frame + 1), "support end in the response's own time frame")
+    else:
+        raise AnalysisError("%s: %s" % (R, r.get("reason")))
+    lo = ev.expr(rets[0].value.elts[0])
+    r = S.compare(strip(lo), OFF, domain={"OFFSET": [Fraction(-3), Fraction(-7, 2)]})
+    ctx.check(r["verdict"] == "equal", R, f, rets[0], "the support starts at floor(offset)", "support start is %s" % S.show(lo))
+
+
+def _coef(core):
+    try:
+        v1 = S.evaluate(core, {"X": Fraction(0), "OFFSET": Fraction(1)})
+        return int(v1)
+    except Exception:
+        return 99
